@@ -1040,6 +1040,21 @@ def t_pinned(ctx):
         {"f": "bn128.multiply_wide:G1", "args": [{"c": "py_ecc.bn128.G1"}, lit((1 << 1500) - 1)]},
         {"f": "secp.multiply_wide", "args": [{"c": "py_ecc.secp256k1.secp256k1.G"}, lit(-(1 << 1200) - 5)]},
     ]
+    # a VALID two-signer aggregate verified, a second valid aggregate that shares one message with it, and the
+    # first again: state kept from one verification to the next (a set of messages already seen) shows here
+    b0 = len(steps)
+    steps += [
+        {"f": "basic.SkToPk", "args": [lit(5)]},                                            # b0
+        {"f": "basic.SkToPk", "args": [lit(12345)]},                                        # b0 + 1
+        {"f": "basic.Sign", "args": [lit(5), lit(b"message")]},                             # b0 + 2
+        {"f": "basic.Sign", "args": [lit(12345), lit(b"other")]},                           # b0 + 3
+        {"f": "basic.Sign", "args": [lit(12345), lit(b"second message")]},                  # b0 + 4
+        {"f": "basic.Aggregate", "args": [{"r": b0 + 2}, {"r": b0 + 3}]},                   # b0 + 5
+        {"f": "basic.Aggregate", "args": [{"r": b0 + 2}, {"r": b0 + 4}]},                   # b0 + 6
+        {"f": "basic.AggregateVerify", "args": [{"r": b0}, {"r": b0 + 1}, lit(b"message"), lit(b"other"), {"r": b0 + 5}]},
+        {"f": "basic.AggregateVerify", "args": [{"r": b0}, {"r": b0 + 1}, lit(b"message"), lit(b"second message"), {"r": b0 + 6}]},
+        {"f": "basic.AggregateVerify", "args": [{"r": b0}, {"r": b0 + 1}, lit(b"message"), lit(b"other"), {"r": b0 + 5}]},
+    ]
     steps = sanitize_steps(W, steps)
     n = len(steps)
     case = {"steps": steps, "fresh": [[list(range(n))[::-1], []], [list(range(0, n, 2)) + list(range(1, n, 2)), ["py_ecc.bn128"]],
